@@ -202,6 +202,7 @@ type caseRun struct {
 	// closerace (closerace.go)
 	gate       *persistGate // holds the persister inside one Persist of its own job
 	forceImage bool         // every record keeps its crash image while set
+	nblocked   int          // Batch calls that did not return within their bound (their goroutines pin a root: handles cannot balance)
 }
 
 var current *caseRun
@@ -1412,7 +1413,11 @@ func (h *H) Exec(line string, out func(string, string), st *hlib.Stats, work str
 			}
 			kinds = append(kinds, k[:1]+k[len(k)-1:])
 		}
-		c.log = append(c.log, rec{op: "final " + re, state: fmt.Sprintf("acked=%s handles=%d/%d/%d", ints(ak), c.loads, c.closes, c.dblClose)})
+		fin := fmt.Sprintf("acked=%s handles=%d/%d/%d", ints(ak), c.loads, c.closes, c.dblClose)
+		if c.nblocked > 0 {
+			fin += fmt.Sprintf(" blocked=%d", c.nblocked)
+		}
+		c.log = append(c.log, rec{op: "final " + re, state: fin})
 		c.mu.Unlock()
 		c.flush(out, st)
 		st.Case(strings.Join(kinds, ""), ncommit > 0)
